@@ -593,6 +593,34 @@ func sliceResultsIndependent(route string, a, b any) string {
 	return ""
 }
 
+// sliceOrResultsStable: two successful Or-conversions with ONE default value (an empty slice with spare capacity, as a
+// caller re-using a buffer would pass): the first result still reads the same after the second call.
+func sliceOrResultsStable(route string, a, b any) string {
+	def := make([]any, 0, 64)
+	conv := func(v any) []any {
+		if route == "Result.AsSliceOr" {
+			return flyt.NewResult(v).AsSliceOr(def)
+		}
+		s := flyt.NewSharedStore()
+		s.Set("k", v)
+		return s.GetSliceOr("k", def)
+	}
+	r1 := conv(a)
+	want := append([]any(nil), r1...)
+	ref := flyt.ToSlice(a)
+	r2 := conv(b)
+	_ = r2
+	if len(r1) != len(ref) {
+		return fmt.Sprintf("%s(%T, default) has %d elements, ToSlice gives %d", route, a, len(r1), len(ref))
+	}
+	for i := range want {
+		if !zoo.Same(r1[i], want[i]) {
+			return fmt.Sprintf("%s(%T, d) returned %v; after a second call %s(%T, d) with the same default d (empty, capacity 64) element %d of the FIRST result reads %s — the result of a conversion lives in the caller's default value", route, a, want, route, b, i, zoo.Describe(r1[i]))
+		}
+	}
+	return ""
+}
+
 func runC15(c *Cfg) {
 	r := c.Rep
 	runSpecial(c, "C15", "same-name-slice-types")
@@ -608,6 +636,18 @@ func runC15(c *Cfg) {
 					r.Violate("C15", "C15:slice-results-share-memory:"+route, msg, map[string]any{"family": "slice-independence", "route": route, "a": ai, "b": bi})
 				}
 				r.Nontrivial(fmt.Sprintf("si %s %d %d", route, ai, bi))
+			}
+		}
+	}
+	for _, route := range []string{"Result.AsSliceOr", "SharedStore.GetSliceOr"} {
+		for ai, a := range typed {
+			for bi, b := range typed {
+				r.Eval()
+				r.Count("slice_or_default.pairs", 1)
+				if msg := sliceOrResultsStable(route, a, b); msg != "" {
+					r.Violate("C15", "C15:slice-result-lives-in-the-default:"+route, msg, map[string]any{"family": "slice-or-default", "route": route, "a": ai, "b": bi})
+				}
+				r.Nontrivial(fmt.Sprintf("sod %s %d %d", route, ai, bi))
 			}
 		}
 	}
